@@ -64,6 +64,8 @@ def _job_interception():
                 out = parallel_map(lambda i: (seen.append(i), i * i)[1], [(i,) for i in range(n)])
             except Exception as e:  # noqa: BLE001
                 out = type(e).__name__
+            except executor.InjectedInterrupt as e:
+                out = type(e).__name__
         return out, seen, c
 
     fifo_out, fifo_seen, c0 = run_pm(Choices(replay=[]))
@@ -74,6 +76,7 @@ def _job_interception():
         reordered += seen != sorted(seen) or c1.pools[0][4] != tuple(sorted(c1.pools[0][4]))
     f_out, f_seen, cf = run_pm(Choices(replay=[]), fault={"kind": "task_fail_before", "k": 1})
     s_out, s_seen, cs = run_pm(Choices(replay=[]), fault={"kind": "spawn_fail", "k": 2})
+    i_out, i_seen, ci = run_pm(Choices(replay=[]), fault={"kind": "consumer_interrupt", "k": 1})
     model = {
         "fifo_result": fifo_out,
         "fifo_exec_order": fifo_seen,
@@ -81,6 +84,8 @@ def _job_interception():
         "reordered_schedules_of_20": int(reordered),
         "task_fault": [f_out, sorted(f_seen), cf.fault_fired],
         "spawn_fault": [s_out, sorted(s_seen), cs.fault_fired],
+        # Ctrl-C while waiting: a BaseException reaches the caller, the `with` block drains every task
+        "interrupt": [i_out, sorted(i_seen), ci.fault_fired],
     }
 
     return {
@@ -117,6 +122,7 @@ def selfcheck(seed, workers):
         and info["model"]["task_fault"] == ["InjectedFault", [0, 2, 3, 4], "task_fail_before"]
         and info["model"]["spawn_fault"][0] == "InjectedSpawnFailure"
         and info["model"]["spawn_fault"][2] == "spawn_fail"
+        and info["model"]["interrupt"] == ["InjectedInterrupt", [0, 1, 2, 3, 4], "consumer_interrupt"]
     )
     if not ok:
         print("HARNESS-ERROR: seam interception self-check failed")
